@@ -14,6 +14,7 @@ import MocVerif.Model.STCodec
 import MocVerif.Model.STText
 import MocVerif.Props.C07
 import MocVerif.Lemmas.TextST
+import MocVerif.Lemmas.Fits
 
 namespace Moc.STCodec.C11
 open Moc Moc.STCodec
@@ -108,6 +109,37 @@ example : ElemOk 64 ([(2 ^ 62, 2 ^ 62 + 5)], [(0, 4), (8, 12)]) := by
   intro r hr
   simp at hr
   rcases hr with rfl | rfl <;> simp [isT, flag]
+
+/-! ### The whole ST FITS file -/
+section FitsFile
+open Moc.Fits Moc.Codec
+
+/-- **The ST-MOC FITS file, end to end**: the file written for any list of well-formed elements — two
+    header blocks (`MOCDIM = 'TIME.SPACE'`, both depths), one `(start, end)` row pair per range with
+    the time ranges flagged, zero padding — is made of 2880-byte blocks, declares `NAXIS2` = twice the
+    number of ranges, and the rows extracted from its `NAXIS1 × NAXIS2` data bytes are decoded by the
+    reader's single pass to EXACTLY the elements written. -/
+theorem fits_st_file_roundtrip (w d1 d2 : Nat) (es : List Elem) (hes : ∀ e ∈ es, ElemOk w e)
+    (h1 : d1 ≤ 255) (h2 : d2 ≤ 255) (hw : w / 8 < 10 ^ 20) (hn : (encodeST w es).length <<< 1 < 10 ^ 20)
+    (hfit : ∀ r ∈ encodeST w es, r.1 < 256 ^ (w / 8) ∧ r.2 < 256 ^ (w / 8)) :
+    (stFile w d1 d2 (encodeST w es)).length % 2880 = 0 ∧
+    (readStructure (stFile w d1 d2 (encodeST w es))).map (fun x => (x.1, x.2.1, decodeST w x.2.2))
+      = some (w / 8, (encodeST w es).length <<< 1, es) := by
+  have hwl : (encodeWords (encodeST w es)).length = (encodeST w es).length <<< 1 := by
+    rw [encodeWords_length, Nat.shiftLeft_eq, Nat.pow_one, Nat.mul_comm]
+  have hc : (stCards w d1 d2).length ≤ 27 := by simp [stCards]
+  refine ⟨fileOf_blocks w _ _ (stCards_80 w d1 d2 h1 h2) hc hw (by rw [hwl]; exact hn), ?_⟩
+  obtain ⟨hr, _⟩ := fileOf_words w (stCards w d1 d2) (encodeWords (encodeST w es)) (stCards_80 w d1 d2 h1 h2) hc hw
+    (by rw [hwl]; exact hn) (by
+      intro x hx
+      obtain ⟨r, hr, h | h⟩ := mem_encodeWords _ x hx
+      · rw [h]; exact (hfit r hr).1
+      · rw [h]; exact (hfit r hr).2)
+  unfold readStructure stFile
+  rw [hr, hwl]
+  simp only [Option.map_some, decodeWords_encodeWords, fits_st_roundtrip w es hes]
+
+end FitsFile
 
 /-! ### ASCII serialisation of ST-MOCs (token level) -/
 section Text
